@@ -79,4 +79,5 @@ CORPUS += [
 CORPUS += [
     M("authenticated-requires-alive", "msmart/lan.py", "        if datetime.now(timezone.utc) > self._local_key_expiration:\n            _LOGGER.debug(\"Authentication with %s has expired.\", self.peer)",
       "        if not self.alive:\n            return False\n\n        if datetime.now(timezone.utc) > self._local_key_expiration:\n            _LOGGER.debug(\"Authentication with %s has expired.\", self.peer)"),
+    M("connect-stores-protocol-before-connecting", "msmart/lan.py", "        loop = asyncio.get_event_loop()\n        task = loop.create_connection(", "        self._protocol = protocol_class()\n        loop = asyncio.get_event_loop()\n        task = loop.create_connection("),
 ]
